@@ -62,6 +62,9 @@ CHECKS = {
  "C19": ("exploration", "round-trip equality monitors over a real loopback WebSocket, the channel transport and HTTP (two instances over loopback); differential raw-input check against a reference proto.Unmarshal; ServeHTTP driven through httptest under recover; clockwork fake clock placing the idle tick around an in-progress delivery with a rendezvous hook",
          "Every generated envelope value (all 32 presence combinations, ids across uint64, bodies to 1 MiB, non-ASCII, repeated fields) read equal and in order on each shipped transport; non-envelope input (text frames, truncated/bit-flipped/random bytes, body-less / header-less / source-less / unmappable HTTP requests) rejected and never delivered; blocked Read/Write return after cancel; the HTTP idle cleaner never panics a concurrent ServeHTTP and fails idle readers.",
          "Kernel I/O paths use wall-clock watchdogs (WebSocket expiry = inconclusive); channel-transport context checks are decided at final states.", "DESIGN.md 2/C19"),
+ "C15": ("exploration", "Go race detector (-race build of the harness + library) over the other checks' workloads with GOMAXPROCS 1/2/4/16 and seeded yields at the instrumented points; reports parsed from GORACE log files, attributed by owner frame and de-duplicated",
+         "The quick case lists of 15 other checks (concurrent calls on one connection, sender+receiver goroutines per stream, Header/Trailer concurrent with sends, cancellation, Stop and transport failure concurrent with traffic, proxy/demux with many peers, HTTP cleaner) run under the race detector; any report whose accesses are made by library code is a violation. A report involving harness code fails the run as broken instead of being filtered away.",
+         "Only executed access pairs inside the detector's history window are seen; a clean run is not race freedom. Evidence lists raw / goat / harness report counts and hook coverage.", "DESIGN.md 2/C15"),
 }
 NOT_YET = "check not built yet in this round (runtime-monitoring design in DESIGN.md section 2); will be claimed once its monitor exists"
 
